@@ -389,6 +389,98 @@ def check_zero_is_a_value(ctx):
                 ctx.ok(R5, f"{fi.key}:optional-numbers", "optional numbers are told apart from 0 with `is None` tests", fi)
 
 
+def _key_access(e: ast.AST, root: str) -> Optional[str]:
+    """K for ``root["K"]`` / ``root.get("K")`` / ``root.get("K", None)``"""
+    if isinstance(e, ast.Subscript) and norm(e.value) == root and isinstance(e.slice, ast.Constant) and isinstance(e.slice.value, str):
+        return e.slice.value
+    if isinstance(e, ast.Call) and isinstance(e.func, ast.Attribute) and e.func.attr == "get" and norm(e.func.value) == root and e.args and isinstance(e.args[0], ast.Constant) and isinstance(e.args[0].value, str):
+        if len(e.args) == 1 or (isinstance(e.args[1], ast.Constant) and e.args[1].value is None):
+            return e.args[0].value
+    return None
+
+
+def check_present_keys_by_membership(ctx):
+    """A reader decides whether an optional *scalar* member is present with ``"k" in record`` / ``is None``: a truthiness test on the
+    member's value also rejects a stored 0 / 0.0, which is data. Members that the same reader iterates or hands to an array / container constructor are containers (empty =
+    nothing to restore) and are left alone."""
+    repo = ctx.repo
+    n = 0
+    for name, w, r, root, allow in PAIRS:
+        if root is None:
+            continue
+        fi = repo.func(r)
+        tests = []
+        for x in body_walk(fi.node):
+            if isinstance(x, (ast.If, ast.IfExp, ast.While)):
+                tests.append(x.test)
+            elif isinstance(x, ast.Assert):
+                tests.append(x.test)
+        atoms = []
+        for t in tests:
+            stack = [t]
+            while stack:
+                e = stack.pop()
+                if isinstance(e, ast.BoolOp):
+                    stack.extend(e.values)
+                elif isinstance(e, ast.UnaryOp) and isinstance(e.op, ast.Not):
+                    stack.append(e.operand)
+                else:
+                    atoms.append(e)
+        iterated = set()
+        for x in body_walk(fi.node):
+            its = [x.iter] if isinstance(x, (ast.For, ast.comprehension)) else []
+            if isinstance(x, ast.Call) and (dotted(x.func) or "").split(".")[-1] in ("array", "asarray", "list", "tuple", "set", "len", "sorted", "convert_dict_to_array", "Counter", "dict"):
+                its = list(x.args)
+            for it in its:
+                for y in ast.walk(it):
+                    k = _key_access(y, root)
+                    if k:
+                        iterated.add(k)
+        for e in atoms:
+            k = _key_access(e, root)
+            if k is None:
+                continue
+            n += 1
+            if k in iterated:
+                ctx.ok(R5, f"{fi.key}:member-present:{k}", f"`{short(e)}` guards a member the reader iterates (a container: empty means nothing to restore)", fi)
+            else:
+                ctx.violation(R5, f"{fi.key}:member-present:{k}", f"{fi.qualname}: `{short(e)}` decides whether the scalar member \"{k}\" is present by its truthiness: a stored 0 / 0.0 is treated as absent, so the record written for that value does not load back to it (use `\"{k}\" in {root}` or `is None`)", f"{fi.module.relpath}:{e.lineno}")
+    ctx.ok(R5, "artefacts:member-present", f"{n} truthiness tests on record members examined", "")
+
+
+def check_member_loops_complete(ctx):
+    """A reader that walks a fixed list of member names must look at every name: leaving the loop (``break`` / ``return``) at the
+    first absent member skips the members after it, although the writer stores each one independently."""
+    repo = ctx.repo
+    n = 0
+    for name, w, r, root, allow in PAIRS:
+        if root is None:
+            continue
+        fi = repo.func(r)
+        for loop in body_walk(fi.node):
+            if not (isinstance(loop, ast.For) and isinstance(loop.target, ast.Name)):
+                continue
+            it = loop.iter
+            if isinstance(it, ast.Name) and it.id in fi.module.constants:
+                it = fi.module.constants[it.id]
+            if not (isinstance(it, (ast.Tuple, ast.List)) and len(it.elts) > 1 and all(isinstance(e, ast.Constant) and isinstance(e.value, str) for e in it.elts)):
+                continue
+            n += 1
+            v = loop.target.id
+            bad = None
+            for x in ast.walk(loop):
+                if isinstance(x, ast.If) and any(isinstance(y, ast.Name) and y.id == v for y in ast.walk(x.test)) and root in {y.id for y in ast.walk(x.test) if isinstance(y, ast.Name)}:
+                    for st in x.body + x.orelse:
+                        if isinstance(st, (ast.Break, ast.Return)):
+                            bad = (x, st)
+            construct = f"{fi.key}:member-loop:{','.join(e.value for e in it.elts)[:60]}"
+            if bad:
+                ctx.violation(R1, construct, f"{fi.qualname}: the loop over the member names {short(it)} is left by `{short(bad[1])}` under `{short(bad[0].test)}`: once one member is absent the members after it are not read, although the writer stores each of them independently", f"{fi.module.relpath}:{bad[1].lineno}")
+            else:
+                ctx.ok(R1, construct, "every listed member name is examined", fi)
+    ctx.ok(R1, "artefacts:member-loops", f"{n} loops over fixed member-name lists examined", "")
+
+
 def _has_optional_number(repo, fi) -> bool:
     from ..lints import _optional_numeric, _return_slots
 
@@ -415,8 +507,25 @@ def run(ctx):
     check_grammar(ctx)
     check_slots(ctx)
     check_zero_is_a_value(ctx)
+    check_present_keys_by_membership(ctx)
+    check_member_loops_complete(ctx)
     check_members_saved_individually(ctx)
     check_loaded_arrays_unchanged(ctx)
+    # what a loader returns is a function of the artefact's current contents: a table of results kept in module state (keyed by
+    # a path, say) hands out what an earlier version of the file held, or one shared object to two callers
+    from ..state import check_hidden_state
+    from .c20 import effects_for
+
+    keys = []
+    for name, w, r, root, allow in PAIRS:
+        keys += [w, r]
+    keys += LOADERS + [x for row in WIRING for x in (row[0], row[2])]
+    seen = []
+    for k in keys:
+        if k not in seen and ctx.repo.has_func(k):
+            seen.append(k)
+    check_hidden_state(ctx, "C11-D6 serde-stateless", [ctx.repo.func(k) for k in seen], effects_for(ctx), argument_caches=True)
+    ctx.floor("C11-D6", 30)
     from ..lints import one_sided_signed_part_tests
 
     hits = one_sided_signed_part_tests(ctx.repo, ("utils", "operators._io", "measurements.expectation_values", "measurements.parities", "measurements.measurements", "operators._pauli_operators"))
